@@ -17,7 +17,7 @@ RULE = ("bounded-exhaustive enumeration (E1) of well-formed discovery replies bu
         "lower and upper hex x reported IP equal / different x V2 / V3 wrapper x listening port 6445 / 20086; full sweep of every "
         "axis plus a pairwise product, 12 hosts per simulated broadcast; discover() and discover_single(); one variant with "
         "auto-connect against simulated V2 air conditioners; hosts answering spread over the whole discovery window; a subnet-directed broadcast "
-        "target and a DNS name as discover_single target; replies whose last byte is LF / CR / space / NUL / TAB. The responders only answer a probe that is a valid V2 envelope "
+        "target and a DNS name as discover_single target; the same broadcasts with the user's debug logging switched on; replies whose last byte is LF / CR / space / NUL / TAB. The responders only answer a probe that is a valid V2 envelope "
         "(length, MD5, decryptable) on the documented ports. Oracle: multiset of (source address, port, id, serial, name, type, "
         "version, class is AirConditioner iff type 0xAC). non-trivial = every host")
 ASSUMPTIONS = ["reply layout as in the two captured vectors of the repository's tests (decoded by the reference codec as a cross-check)",
@@ -134,6 +134,9 @@ def shards(tier):
     out += [("directed", g) for g in groups[::7]]
     out += [("hostname", g) for g in groups[::9]]
     out += [("lastbyte", 0)]
+    # the same broadcasts with the library's debug logging switched on by the user (msmart-ng --debug)
+    out += [("debuglog", g) for g in groups[::4]]
+    out += [("debuglog-single", g) for g in groups[::16]]
     return out
 
 
@@ -160,7 +163,7 @@ def run_group(mode: str, descs: list[dict]):
                 w.net.listen(d["ip"], d["port"], SimDevice(version=2, device_id=d["id"], ac=RefAC({"temp": 21.0})))
 
     async def drive():
-        if mode == "single":
+        if mode in ("single", "debuglog-single"):
             r = await Discover.discover_single(descs[0]["ip"], auto_connect=False)
             return [r] if r is not None else []
         if mode == "hostname":
@@ -172,7 +175,12 @@ def run_group(mode: str, descs: list[dict]):
         return await Discover.discover(auto_connect=(mode == "autoconnect"))
 
     try:
-        out = w.run(drive())
+        if mode.startswith("debuglog"):
+            from ..harness import debug_logging
+            with debug_logging():
+                out = w.run(drive())
+        else:
+            out = w.run(drive())
         probes = [(a, len(d)) for _, d, a in w.net.udp[0].sent] if w.net.udp else []
         return out, pop, probes
     finally:
@@ -189,7 +197,7 @@ def run_shard(shard, tier) -> Stats:
     descs = [dict(d) for d in all_hosts(tier)[g:g + 12]]
     if mode == "lastbyte":
         descs = lastbyte_hosts()
-    if mode in ("single", "hostname"):
+    if mode in ("single", "hostname", "debuglog-single"):
         descs = descs[:3]
     if mode == "autoconnect":
         descs = [d for d in descs if d["version"] == 2] or descs[:1]
@@ -200,7 +208,7 @@ def run_shard(shard, tier) -> Stats:
         st.ev((mode, g), "raised", True)
         return st
     got = sorted(ident(d) for d in out[1])
-    expect_descs = descs[:1] if mode in ("single", "hostname") else descs
+    expect_descs = descs[:1] if mode in ("single", "hostname", "debuglog-single") else descs
     want = sorted((d["ip"], d["port"], d["id"], d["sn"], d["name"], d["type"], d["version"],
                    "AirConditioner" if d["type"] == 0xAC else "Device") for d in expect_descs)
     # hosts only answer a probe that is a valid discovery request on their port, so an unusable probe shows up as missing
